@@ -16,6 +16,8 @@ Theorem C07_m32_fused_ops_are_plain_residues : M32_fused_ops_stmt.        Proof.
 Print Assumptions C07_m32_fused_ops_are_plain_residues.
 Theorem C07_m32_inverse_and_division : M32_inv_div_stmt.                  Proof. exact M32_inv_div. Qed.
 Print Assumptions C07_m32_inverse_and_division.
+Theorem C07_m32_inverse_and_division_every_input_unit_or_not : M32_inv_div_any_stmt.   Proof. exact M32_inv_div_any. Qed.
+Print Assumptions C07_m32_inverse_and_division_every_input_unit_or_not.
 Theorem C07_m32_isUnit_is_gcd_test : M32_isUnit_stmt.                     Proof. exact M32_isUnit. Qed.
 Print Assumptions C07_m32_isUnit_is_gcd_test.
 Theorem C07_m32_init_convert_identity : M32_init_convert_stmt.            Proof. exact M32_init_convert. Qed.
@@ -72,6 +74,12 @@ Theorem C07_rmsub_before_fix6_destination_is_minuend_refuted :
   exists k p b c, RecMod k p /\ canon p b /\ canon p c /\ rm_sub_old_dst_is_b k p b c <> (b - c) mod p /\ ~ canon p (rm_sub_old_dst_is_b k p b c).
 Proof. exact rm_sub_old_dst_is_b_refuted. Qed.
 Print Assumptions C07_rmsub_before_fix6_destination_is_minuend_refuted.
+(* HISTORY (body no longer in /repo once fix-7 is applied): signed native constructors negating in the native type *)
+Theorem C07_signed_ctor_before_fix7_most_negative_value_refuted :
+  let p := 1000003 in let b := - 2 ^ 63 in
+  (p - abs_in_type_old 1 64 b mod p) mod p = 672319 /\ b mod p = 324658 /\ abs_ru 1 b = 2 ^ 63.
+Proof. exact signed_ctor_before_fix7_refuted. Qed.
+Print Assumptions C07_signed_ctor_before_fix7_most_negative_value_refuted.
 
 (* Part 2 over C06's limb model (coq/C06 imported read-only): the Montgomery functions written as compositions of C06's
    limb-level primitives (LimbModel.v).  wf = every limb in [0,2^64); val = the integer a limb tree denotes.  Every fact
